@@ -2064,12 +2064,14 @@ def metas(ctx):
     derived = []
     plain = lambda m: not m.get("history") and not m.get("omit") and "max_dim_inv" not in m
     for i, m in enumerate([m for m in out if m["op"] == "lm_trace"]):
+        if ctx.thorough or i % 3 == 0:
+            derived.append(dict(m, op="lm_descent", K=min(m["K"], ctx.n(6, 16))))
+    for i, m in enumerate([m for m in out if m["op"] == "lm_trace2"]):
         if ctx.thorough or i % 2 == 0:
-            derived.append(dict(m, op="lm_descent", K=min(m["K"], ctx.n(8, 16))))
-    for m in [m for m in out if m["op"] == "lm_trace2"]:
-        derived.append(dict(m, op="lm_descent2", K=min(m["K"], ctx.n(6, 12))))
+            derived.append(dict(m, op="lm_descent2", K=min(m["K"], ctx.n(5, 12))))
     for m in out:
-        if m["op"] in ("cgls_solve", "pcgls_solve") and plain(m):
+        # the exit taken does not depend on the operator form: quick tier only the dense-matrix and function forms
+        if m["op"] in ("cgls_solve", "pcgls_solve") and plain(m) and (ctx.thorough or m.get("form") in ("dense", "fun")):
             derived.append(dict(m, op=m["op"].replace("solve", "exit")))
         if (m["op"] == "pcgls_iters" and plain(m) and m["shift"] == 0 and all(float(v).is_integer() for v in m["x0"])
                 and all(float(v).is_integer() for row in m["P"] for v in row)):
